@@ -583,7 +583,7 @@ func TestVerifBounded(t *testing.T) {
 		}
 		rec(nil)
 	}
-	fmt.Printf("VERIF-BOUNDED-SUMMARY harness=doctree replicas=%d depth=%d alphabet=%d histories=%d steps=%d failures=%d sample=[%s]\n", nrep, depth, len(alpha), histories, steps, failures, sample)
+	fmt.Printf("VERIF-BOUNDED-SUMMARY harness=doctree histories=%d steps=%d failures=%d bound=[every history of at most %d steps from an alphabet of %d steps over %d replicas, fixed start state] sample=[%s]\n", histories, steps, failures, depth, len(alpha), nrep, sample)
 	if failures > 0 {
 		t.Fatalf("%d failing histories", failures)
 	}
